@@ -7,6 +7,7 @@ import (
 	"go/types"
 	"sort"
 	"strings"
+	"sync"
 
 	"golang.org/x/tools/go/ssa"
 )
@@ -15,25 +16,27 @@ import (
 // functions, fields and types the rules talk about. Everything except the exported
 // API method names is discovered structurally on every run.
 type MapModel struct {
-	Funcs    []*ssa.Function // all functions of the program (for call-site queries)
-	Name     string // type name: "Map" / "MapOf"
-	Iface    string // cache-level interface it implements
-	Type     *types.Named
-	Methods  map[string]*ssa.Function
-	Core     *ssa.Function // the locked read-modify-write core (doCompute)
-	Resize   *ssa.Function
-	Wait     *ssa.Function // parks on the resize condition
-	Copy     *ssa.Function // copies one bucket chain into the new table
-	Append   *ssa.Function // plain insert into an unpublished bucket chain
-	NewTable *ssa.Function
-	Ctor     []*ssa.Function // functions that allocate the map object
-	TableT   string          // table struct type name
-	BucketT  []string        // bucket struct type names (padded + inner)
-	EntryT   string          // immutable entry type (MapOf)
-	TableF   string          // map.table
-	FlagF    string          // map.resizing
-	MuF      string          // map.resizeMu
-	CondF    string          // map.resizeCond
+	Funcs     []*ssa.Function // all functions of the program (for call-site queries)
+	sitesOnce sync.Once
+	sites     map[*ssa.Function][]ssa.CallInstruction
+	Name      string // type name: "Map" / "MapOf"
+	Iface     string // cache-level interface it implements
+	Type      *types.Named
+	Methods   map[string]*ssa.Function
+	Core      *ssa.Function // the locked read-modify-write core (doCompute)
+	Resize    *ssa.Function
+	Wait      *ssa.Function // parks on the resize condition
+	Copy      *ssa.Function // copies one bucket chain into the new table
+	Append    *ssa.Function // plain insert into an unpublished bucket chain
+	NewTable  *ssa.Function
+	Ctor      []*ssa.Function // functions that allocate the map object
+	TableT    string          // table struct type name
+	BucketT   []string        // bucket struct type names (padded + inner)
+	EntryT    string          // immutable entry type (MapOf)
+	TableF    string          // map.table
+	FlagF     string          // map.resizing
+	MuF       string          // map.resizeMu
+	CondF     string          // map.resizeCond
 	// StateOwner is the struct type that holds the resize flag, mutex and condition: the map type itself, or a
 	// struct embedded in it by value (resize bookkeeping shared by both map types).
 	StateOwner string
@@ -60,6 +63,7 @@ type Model struct {
 	// of a lock derived from one of their parameters; call sites of a wrapper are lock events.
 	Wrappers    map[*ssa.Function]LockWrapper
 	HandleCtors map[*ssa.Function]HandleCtor
+	HelperWord  map[*ssa.Function]helperWord // spin helpers that are methods of the bucket: field path to the lock word
 	Problems    []string
 	// cache layer
 	CacheT    [2]*types.Named // xsyncMap, xsyncMapOf (inner objects)
@@ -157,7 +161,14 @@ func BuildModel(p *Prog) *Model {
 	return m
 }
 
+type helperWord struct {
+	steps []string
+	key   string
+}
+
 func (m *Model) findLockHelpers() {
+	steps := map[*ssa.Function]helperWord{}
+	m.HelperWord = steps
 	for _, f := range m.P.Funcs {
 		if f.Pkg != m.P.Xsync || len(f.Params) != 1 {
 			continue
@@ -175,8 +186,19 @@ func (m *Model) findLockHelpers() {
 				return
 			}
 			op, addr, ok := AtomicOp(c)
-			if !ok || SameWord(addr) != ssa.Value(par) {
+			if !ok {
 				return
+			}
+			// the lock word is the parameter itself, or a field of the (bucket) parameter: func (b *bucket) lock()
+			if SameWord(addr) != ssa.Value(par) {
+				wa := Addr(SameWord(addr))
+				if wa.Root != ssa.Value(par) || len(wa.Steps) == 0 {
+					return
+				}
+				if old, seen := steps[f]; seen && strings.Join(old.steps, ".") != strings.Join(wa.Steps, ".") {
+					return
+				}
+				steps[f] = helperWord{wa.Steps, wa.Key()}
 			}
 			args := c.Common().Args
 			switch op {
@@ -457,6 +479,19 @@ func (m *Model) buildMap(named *types.Named, iface string) *MapModel {
 						mm.Wait = f
 					}
 				}
+			case *ssa.Store:
+				// 'g.cond.L = &g.mu' instead of sync.NewCond(&g.mu)
+				if da := Addr(x.Addr); da.Field == "L" && len(da.Steps) >= 2 {
+					v := x.Val
+					if mi, ok := v.(*ssa.MakeInterface); ok {
+						v = mi.X
+					}
+					if a := Addr(v); a.Owner == mm.StateOwner && a.Field != "" {
+						if n, ok := elemOf2(v.Type()).(*types.Named); ok && n.Obj().Pkg() != nil && n.Obj().Pkg().Path() == "sync" && n.Obj().Name() == "Mutex" {
+							mm.MuF = a.Field
+						}
+					}
+				}
 			case *ssa.Call:
 				// handled above (CallInstruction); typed atomic pointer: the load yields *table directly
 			case *ssa.Convert:
@@ -473,6 +508,46 @@ func (m *Model) buildMap(named *types.Named, iface string) *MapModel {
 				}
 			}
 		})
+	}
+	// the winning CAS (with its wait-and-retry loop) moved into a step function of the map (beginResize): the resize
+	// function is that step's only caller
+	if mm.Resize != nil && mm.FlagCAS == nil {
+		callsTableCtor := false
+		Instrs(mm.Resize, func(in ssa.Instruction) {
+			if c, ok := in.(ssa.CallInstruction); ok {
+				if cal := Callee(c); cal != nil && cal.Signature.Results().Len() == 1 && namedOf(cal.Signature.Results().At(0).Type()) != "" && cal.Signature.Recv() == nil {
+					if _, isPtr := cal.Signature.Results().At(0).Type().(*types.Pointer); isPtr {
+						callsTableCtor = true
+					}
+				}
+			}
+			if a, ok := in.(*ssa.Alloc); ok && a.Heap {
+				callsTableCtor = true
+			}
+		})
+		sites := CallSitesOf(p.Funcs, mm.Resize)
+		var callers []*ssa.Function
+		for _, s := range sites {
+			g := s.Parent()
+			for g.Parent() != nil {
+				g = g.Parent()
+			}
+			dup := false
+			for _, c := range callers {
+				if c == g {
+					dup = true
+				}
+			}
+			if !dup {
+				callers = append(callers, g)
+			}
+		}
+		if !callsTableCtor && len(callers) == 1 {
+			if rv := callers[0].Signature.Recv(); rv != nil && namedOf(rv.Type()) == mm.Name {
+				mm.FlagCAS = mm.Resize
+				mm.Resize = callers[0]
+			}
+		}
 	}
 	if mm.FlagCAS != nil && mm.Resize == nil {
 		for _, site := range CallSitesOf(p.Funcs, mm.FlagCAS) {
@@ -1030,12 +1105,15 @@ func (m *Model) LockEventOfCall(c ssa.CallInstruction) *LockEvent {
 	args := c.Common().Args
 	var ev *LockEvent
 	switch {
-	case m.Acquire[cal] && len(args) == 1:
+	case (m.Acquire[cal] || m.Release[cal]) && len(args) == 1:
 		a := Addr(args[0])
-		ev = &LockEvent{Acquire: true, Canon: a.Canon(), Key: a.Key(), Root: a.Root, AddrV: args[0], steps: a.Steps}
-	case m.Release[cal] && len(args) == 1:
-		a := Addr(args[0])
-		ev = &LockEvent{Acquire: false, Canon: a.Canon(), Key: a.Key(), Root: a.Root, AddrV: args[0], steps: a.Steps}
+		key := a.Key()
+		var extra []string
+		if hw, isM := m.HelperWord[cal]; isM {
+			a.Steps = append(append([]string{}, a.Steps...), hw.steps...)
+			key, extra = hw.key, hw.steps
+		}
+		ev = &LockEvent{Acquire: m.Acquire[cal], Canon: a.Canon(), Key: key, Root: a.Root, AddrV: args[0], Extra: extra, steps: a.Steps}
 	default:
 		if w, ok := m.Wrappers[cal]; ok && w.Param < len(args) && w.Handle {
 			// the handle is the result of a handle constructor: the lock is the one that constructor addresses
@@ -1114,11 +1192,24 @@ func (m *Model) buildCache() {
 		w := impl[0]
 		m.WrapT[i] = w
 		ws, _ := w.Underlying().(*types.Struct)
-		if ws == nil || ws.NumFields() != 1 || !ws.Field(0).Embedded() {
-			m.Problems = append(m.Problems, fmt.Sprintf("cache.%s implementer %s is not a one-field wrapper struct", iface, w.Obj().Name()))
+		// the wrapper embeds the inner cache object (and may carry a few fields of its own, e.g. the stop signal)
+		embIdx := -1
+		if ws != nil {
+			for fi := 0; fi < ws.NumFields(); fi++ {
+				if ws.Field(fi).Embedded() {
+					if embIdx >= 0 {
+						embIdx = -2
+						break
+					}
+					embIdx = fi
+				}
+			}
+		}
+		if ws == nil || embIdx < 0 {
+			m.Problems = append(m.Problems, fmt.Sprintf("cache.%s implementer %s is not a wrapper struct around one embedded object", iface, w.Obj().Name()))
 			continue
 		}
-		it := ws.Field(0).Type()
+		it := ws.Field(embIdx).Type()
 		if pt, ok := it.(*types.Pointer); ok {
 			it = pt.Elem()
 		}
@@ -1136,6 +1227,7 @@ func (m *Model) buildCache() {
 			}
 		}
 		// constructor: function allocating the inner type
+		var allocFn *ssa.Function
 		for _, f := range p.Funcs {
 			if f.Pkg != p.Cache || f.Parent() != nil {
 				continue
@@ -1144,9 +1236,46 @@ func (m *Model) buildCache() {
 				if a, ok := in.(*ssa.Alloc); ok {
 					if n, ok := a.Type().(*types.Pointer).Elem().(*types.Named); ok && origin(n) == inner {
 						m.CacheCtor[i] = f
+						allocFn = f
 					}
 				}
 			})
+		}
+		// built in steps (c := build(cfg); c.startJanitor(..); return c.wrap()): when the allocating function does not
+		// itself return the interface, the constructor is its nearest caller that does
+		returnsIface := func(f *ssa.Function) bool {
+			res := f.Signature.Results()
+			if res.Len() != 1 {
+				return false
+			}
+			n, ok := types.Unalias(res.At(0).Type()).(*types.Named)
+			return ok && origin(n).Obj().Name() == iface
+		}
+		if allocFn != nil && !returnsIface(allocFn) {
+			level := []*ssa.Function{allocFn}
+			seenF := map[*ssa.Function]bool{allocFn: true}
+			found := false
+			for depth := 0; depth < 3 && !found; depth++ {
+				var next []*ssa.Function
+				for _, g := range level {
+					for _, site := range CallSitesOf(p.Funcs, g) {
+						caller := site.Parent()
+						for caller.Parent() != nil {
+							caller = caller.Parent()
+						}
+						if caller.Pkg != p.Cache || seenF[caller] {
+							continue
+						}
+						seenF[caller] = true
+						if returnsIface(caller) && caller.Signature.Recv() == nil && !found {
+							m.CacheCtor[i] = caller
+							found = true
+						}
+						next = append(next, caller)
+					}
+				}
+				level = next
+			}
 		}
 		if m.CacheCtor[i] == nil {
 			m.Problems = append(m.Problems, "constructor of "+inner.Obj().Name()+" not found")
@@ -1155,6 +1284,43 @@ func (m *Model) buildCache() {
 	// item types: struct types of package cache with an int64 field and at least one bool-returning method
 	// (the expiry predicates); the generic one belongs to the generic twin
 	scope := p.Cache.Pkg.Scope()
+	// candidates: what the caches actually keep in their maps - the second type argument of the generic twin's map
+	// field, and the struct types the other twin asserts the stored interface values to
+	storedAs := map[string]bool{}
+	for i := 0; i < 2; i++ {
+		if m.CacheT[i] == nil {
+			continue
+		}
+		if cs, ok := m.CacheT[i].Underlying().(*types.Struct); ok {
+			for fi := 0; fi < cs.NumFields(); fi++ {
+				if fn, ok := types.Unalias(cs.Field(fi).Type()).(*types.Named); ok && fn.TypeArgs() != nil && fn.TypeArgs().Len() >= 2 {
+					if an, ok := types.Unalias(fn.TypeArgs().At(fn.TypeArgs().Len() - 1)).(*types.Named); ok && an.Obj().Pkg() == p.Cache.Pkg {
+						storedAs[origin(an).Obj().Name()] = true
+					}
+				}
+			}
+		}
+		for _, f := range m.CacheM[i] {
+			if f == nil {
+				continue
+			}
+			visit := func(g *ssa.Function) {
+				Instrs(g, func(in ssa.Instruction) {
+					if ta, ok := in.(*ssa.TypeAssert); ok {
+						if an, ok := types.Unalias(ta.AssertedType).(*types.Named); ok && an.Obj().Pkg() == p.Cache.Pkg {
+							if _, isSt := an.Underlying().(*types.Struct); isSt {
+								storedAs[origin(an).Obj().Name()] = true
+							}
+						}
+					}
+				})
+			}
+			visit(f)
+			for _, an := range f.AnonFuncs {
+				visit(an)
+			}
+		}
+	}
 	for _, n := range scope.Names() {
 		tn, ok := scope.Lookup(n).(*types.TypeName)
 		if !ok {
@@ -1167,6 +1333,9 @@ func (m *Model) buildCache() {
 		st, ok := named.Underlying().(*types.Struct)
 		if !ok || st.NumFields() != 2 {
 			continue
+		}
+		if len(storedAs) > 0 && !storedAs[n] {
+			continue // some other two-field struct with a bool method (a janitor, a traversal filter)
 		}
 		hasInt := false
 		emb := ""
@@ -1319,23 +1488,30 @@ func (mm *MapModel) UniqueArg(p *ssa.Parameter) ssa.Value {
 	if idx < 0 {
 		return nil
 	}
-	var site ssa.CallInstruction
-	n := 0
-	for _, g := range mm.Funcs {
-		if g == f {
-			continue
-		}
-		for _, b := range g.Blocks {
-			for _, in := range b.Instrs {
-				if c, ok := in.(ssa.CallInstruction); ok && Callee(c) == f {
-					site = c
-					n++
+	mm.sitesOnce.Do(func() {
+		mm.sites = map[*ssa.Function][]ssa.CallInstruction{}
+		for _, g := range mm.Funcs {
+			for _, b := range g.Blocks {
+				for _, in := range b.Instrs {
+					if c, ok := in.(ssa.CallInstruction); ok {
+						if cal := Callee(c); cal != nil && cal != g {
+							mm.sites[cal] = append(mm.sites[cal], c)
+						}
+					}
 				}
 			}
 		}
-	}
-	if n != 1 || idx >= len(site.Common().Args) {
+	})
+	ss := mm.sites[f]
+	if len(ss) != 1 || idx >= len(ss[0].Common().Args) {
 		return nil
 	}
-	return site.Common().Args[idx]
+	return ss[0].Common().Args[idx]
+}
+
+func elemOf2(t types.Type) types.Type {
+	if p, ok := t.Underlying().(*types.Pointer); ok {
+		return p.Elem()
+	}
+	return t
 }
